@@ -238,6 +238,58 @@ pub fn apply_op(op: &Op, top: bool) {
             wd.model.borrow_mut().roots.push(t);
             wd.roots.borrow_mut().push(LoggedRc::new(c, t));
         }
+        Op::CloneFrom { dst, src } => {
+            let n = wd.model.borrow().roots.len();
+            let Some(i) = pick(*dst, n) else { return noop() };
+            // The overwritten handle is mutably borrowed for the duration of the
+            // call: nothing else can name it.  Take it out of the root lists; the
+            // clone that replaces it is modelled as an in-flight handle (exists,
+            // counts, has no path) until the call returns.
+            let mut lr = wd.roots.borrow_mut().remove(i);
+            let t_old = wd.model.borrow_mut().roots.remove(i);
+            let put_back = |lr: LoggedRc, target: Oid| {
+                let mut lr = lr;
+                lr.target = target;
+                let k = i.min(wd.model.borrow().roots.len());
+                wd.model.borrow_mut().roots.insert(k, target);
+                wd.roots.borrow_mut().insert(k, lr);
+            };
+            let hs = wd.model.borrow().handles();
+            let Some(j) = pick(*src, hs.len()) else {
+                put_back(lr, t_old);
+                return noop();
+            };
+            let (loc, t_src) = hs[j];
+            let hp = handle_at(loc);
+            label(lab::CLONE_FROM);
+            if t_src == t_old {
+                label(lab::CLONE_FROM_SAME);
+            }
+            wd.model.borrow_mut().raws.push(t_src);
+            wd.raws.borrow_mut().push(std::ptr::null());
+            // reference semantics (`*dst = src.clone()`): the clone exists
+            // before the old handle instance is released
+            on_hdrop_begin(t_old);
+            let prev = arena::set_ctx(CtxKind::Drop, t_old, 0);
+            let res = std::panic::catch_unwind(std::panic::AssertUnwindSafe(|| {
+                lib(|| Clone::clone_from(&mut *lr.h, unsafe { &*(*hp).h }));
+            }));
+            let _t = arena::track_off();
+            arena::restore_ctx(prev);
+            wd.raws.borrow_mut().pop();
+            wd.model.borrow_mut().raws.pop();
+            // whatever happened, the overwritten binding now holds the clone (an
+            // assignment completes on the unwind path too)
+            let ok = Rc::as_ptr(&lr.h) as usize == wd.model.borrow().objs[t_src as usize].value_addr;
+            put_back(lr, t_src);
+            on_hdrop_end(t_old, res.is_err());
+            if let Err(e) = res {
+                std::panic::resume_unwind(e);
+            }
+            if !ok {
+                violate(View::Mem, &format!("clone_from(&handle to {}) left the overwritten handle pointing somewhere else", t_src));
+            }
+        }
         Op::DropRoot(sel) => {
             let n = wd.model.borrow().roots.len();
             let Some(i) = pick(*sel, n) else { return noop() };
